@@ -1,8 +1,44 @@
-import H5V.Lemmas.HtmlTBSkelShapeRun
+import H5V.Lemmas.HtmlTBSkelShapeAll
 import H5V.Props.C06Inv
 /-!
-C06, second layer: the element children of `html` and the text under `html`, from the stack-shape
-invariant `ShapeAt` (`H5V/Lemmas/HtmlTBSkelShape*.lean`).
+C06, second layer: the element children of `html` and the text under `html`, for **all** token lists
+and option sets of the HTML tree-builder model, from the stack-shape invariant `ShapeAt`
+(`H5V/Lemmas/HtmlTBSkelShape*.lean`; `rules : Rules` in `HtmlTBSkelShapeAll.lean` says that every
+insertion mode, the foreign-content rules and the EOF arms preserve it).
+
+The invariant (`ShapeAt s r up ph`, for every state from the creation of `html` on):
+* the stack of open elements is `r :: up`, `r` the `html` element, a child of the document, without
+  duplicates, with the table grammar `TG` (a `tr` sits on `tbody/thead/tfoot/template`, …);
+* by insertion mode (`Fits`): BeforeHead `[html]`; InHead `[html, head]`; AfterHead `[html]`; the
+  body-like modes `html body …` (or `html head template …` / `html template …` for a template opened
+  in or after the head), with a `table`/`template` (`tbody…`, `tr`, `td/th`, `template`) on the stack
+  in InTable (InTableBody, InRow, InCell, InTemplate); `html frameset…` in InFrameset; `[html]` in
+  AfterFrameset; `html` followed by formatting elements in AfterAfterFrameset; Text / InTableText:
+  the original mode fits the stack below the raw-text element;
+* the phase `ph` fixes the element children of `html`: none; `head`; `head body`;
+  `head frameset` followed by `noframes` and formatting elements;
+* every child of `html` is an element, a comment, or text of `isAsciiWhitespace` characters;
+* active formatting entries are HTML formatting elements (`a b big code em font i nobr s small strike
+  strong tt u`), the form pointer is a `form` element, one template mode per `template` on the stack;
+* every formatting element among the element children of `html` has an entry with its tag name in the
+  list of active formatting elements (`Afx`).
+
+Theorems (all without hypotheses other than "the run returns normally"):
+* `C06_shape_every_state` — the invariant in every reachable state (after any token list);
+* `C06_html_children` — T2a + T2b + T3b after a completed parse;
+* `C06_html_children_prefix` — T2a: the element children of `html` begin with `head`, then `body` or `frameset`;
+* `C06_html_children_body` — with `body` the list is exactly `head body`;
+* `C06_htmlKidsOk_iff` — the clause of `Skeleton` holds iff no formatting element is among the children
+  (the known finding `C06_witness_frameset_reconstruct` is the only way to break it);
+* `C06_html_children_fmt_in_af` — every formatting element among the children of `html` has an entry with
+  its tag name in the list of active formatting elements at the end of the parse;
+* `C06_html_children_partial` — T2b `_partial`: the full clause `htmlKidsOk` if that list holds no element
+  entry at the end (what is missing: runs through `framesetGapState`, the known finding);
+* `C06_html_text_whitespace` — T3b in the terms of `docClauses` (`isWsChar`);
+* `C06_html_children_every_state` — the same for every state from BeforeHead on (prefix-closed form).
+
+`isAsciiWhitespace` is the class the model uses (`' ' \t \n \x0c \r`); it is the same predicate as
+`isWsChar` of `Props/C06.lean`.
 -/
 namespace H5V.Props.C06
 open H5V.Model.Dom hiding Str
@@ -268,10 +304,7 @@ theorem htmlKids_transfer {d d' : Dom} (hn : d'.nodes = d.nodes) {r : Id}
   rw [e1, e2, childrenOf_of_nodes hn]
   exact ⟨h.1, h.2.1, fun c hc t ht => h.2.2 c hc t (by rw [← e3]; exact ht)⟩
 
-/-- **T2a + T2b + T3b, relative to the per-mode rule statements `Rules`**: after a completed parse
-(the token list ends with EOF; `new`, the tokens, `end()`), the element children of `html` are
-`head body`, or `head frameset` followed by `noframes` / formatting elements only, and every text
-child of `html` consists of `isAsciiWhitespace` characters (the class the model uses) -/
+/-- after a completed parse, relative to a proof of `Rules` (kept for reference; `rules` discharges it) -/
 theorem C06_html_children_of_rules (R : Rules) {opts : Opts} {toks : List (TokToken × Nat)} {line : Nat} {s : State}
     (h : parseTokens opts (toks ++ [(TokToken.eof, line)]) = .ok s) :
     ∃ r, htmlOf s.dom = some r ∧ HtmlKids (elemKidNames s.dom r) ∧
@@ -279,5 +312,336 @@ theorem C06_html_children_of_rules (R : Rules) {opts : Opts} {toks : List (TokTo
   obtain ⟨s0, hf, hn⟩ := parseTokens_fin R h
   obtain ⟨r, hr⟩ := htmlKids_of_fin hf
   exact ⟨r, htmlKids_transfer hn hr⟩
+
+/-! ## the theorems -/
+
+/-- **the stack-shape invariant holds in every reachable state** from the creation of the `html`
+element on (`Late s`: the insertion mode is BeforeHead or later), for every token list and option set -/
+theorem C06_shape_every_state {opts : Opts} {toks : List (TokToken × Nat)} {s : State}
+    (h : Reachable opts toks s) : Late s → ∃ r up ph, ShapeAt s r up ph := by
+  intro hl
+  obtain ⟨r, up, ph, hs, _⟩ := (reachable_i2 rules h).1.2 hl
+  exact ⟨r, up, ph, hs⟩
+
+/-- **T2a + T2b + T3b**: after a completed parse (`new`, a token list that ends with EOF, `end()`), for
+all token lists and option sets: the element children of the `html` root are `head body`, or
+`head frameset` followed by elements each of which is a `noframes` or one of the formatting elements
+`a b big code em font i nobr s small strike strong tt u`; every text child of `html` consists of
+`isAsciiWhitespace` characters (the class the model uses) -/
+theorem C06_html_children {opts : Opts} {toks : List (TokToken × Nat)} {line : Nat} {s : State}
+    (h : parseTokens opts (toks ++ [(TokToken.eof, line)]) = .ok s) :
+    ∃ r, htmlOf s.dom = some r ∧ HtmlKids (elemKidNames s.dom r) ∧
+      ∀ c ∈ s.dom.childrenOf r, ∀ t, s.dom.dataOf c = some (.text t) → t.all isAsciiWhitespace = true :=
+  C06_html_children_of_rules rules h
+
+/-- **T2a**: the element children of `html` begin with `head`, followed by `body` or `frameset` -/
+theorem C06_html_children_prefix {opts : Opts} {toks : List (TokToken × Nat)} {line : Nat} {s : State}
+    (h : parseTokens opts (toks ++ [(TokToken.eof, line)]) = .ok s) :
+    ∃ r b rest, htmlOf s.dom = some r ∧ elemKidNames s.dom r = "head".toList :: b :: rest ∧
+      (b = "body".toList ∨ b = "frameset".toList) := by
+  obtain ⟨r, h1, h2, _⟩ := C06_html_children h
+  rcases h2 with h2 | ⟨ex, h2, _⟩
+  · exact ⟨r, _, [], h1, h2, Or.inl rfl⟩
+  · exact ⟨r, _, ex, h1, h2, Or.inr rfl⟩
+
+/-- with a `body`, the element children of `html` are exactly `head body` -/
+theorem C06_html_children_body {opts : Opts} {toks : List (TokToken × Nat)} {line : Nat} {s : State} {r : Id}
+    (h : parseTokens opts (toks ++ [(TokToken.eof, line)]) = .ok s) (hr : htmlOf s.dom = some r)
+    (hb : "body".toList ∈ elemKidNames s.dom r) : elemKidNames s.dom r = ["head".toList, "body".toList] := by
+  obtain ⟨r', h1, h2, _⟩ := C06_html_children h
+  rw [hr] at h1; cases h1
+  rcases h2 with h2 | ⟨ex, h2, hex⟩
+  · exact h2
+  · exfalso
+    rw [h2] at hb
+    simp only [List.mem_cons] at hb
+    rcases hb with hb | hb | hb
+    · revert hb; decide
+    · revert hb; decide
+    · rcases hex _ hb with h3 | h3
+      · revert h3; decide
+      · revert h3; decide
+
+/-- **T2b, in the terms of `Skeleton`**: the clause `htmlKidsOk` (`head (body | frameset noframes*)`)
+holds for the parsed document iff no formatting element is among the element children of `html` -/
+theorem C06_htmlKidsOk_iff {opts : Opts} {toks : List (TokToken × Nat)} {line : Nat} {s : State} {r : Id}
+    (h : parseTokens opts (toks ++ [(TokToken.eof, line)]) = .ok s) (hr : htmlOf s.dom = some r) :
+    htmlKidsOk (elemKidNames s.dom r) = true ↔ ∀ n ∈ elemKidNames s.dom r, isOneOf n fmtNames = false := by
+  obtain ⟨r', h1, h2, _⟩ := C06_html_children h
+  rw [hr] at h1; cases h1
+  rcases h2 with h2 | ⟨ex, h2, hex⟩
+  · rw [h2]
+    constructor
+    · intro _ n hn
+      simp only [List.mem_cons, List.not_mem_nil, or_false] at hn
+      rcases hn with rfl | rfl <;> decide
+    · intro _; decide
+  · rw [h2]
+    constructor
+    · intro hk n hn
+      simp only [List.mem_cons] at hn
+      rcases hn with rfl | rfl | hn
+      · decide
+      · decide
+      · have hall : ex.all (· == "noframes".toList) = true := by
+          simp only [htmlKidsOk] at hk
+          have h0 : ("frameset".toList == "body".toList) = false := by decide
+          have h1' : ("head".toList == "head".toList) = true := by decide
+          have h2' : ("frameset".toList == "frameset".toList) = true := by decide
+          rw [h1', h0, h2'] at hk
+          simpa using hk
+        have := List.all_eq_true.mp hall n hn
+        have hn' : n = "noframes".toList := by simpa using this
+        rw [hn']; decide
+    · intro hno
+      have hall : ex.all (· == "noframes".toList) = true := by
+        rw [List.all_eq_true]
+        intro n hn
+        rcases hex n hn with h3 | h3
+        · rw [h3]; simp
+        · have := hno n (by simp [hn])
+          rw [h3] at this; cases this
+      simp only [htmlKidsOk]
+      have h0 : ("frameset".toList == "body".toList) = false := by decide
+      have h1' : ("head".toList == "head".toList) = true := by decide
+      have h2' : ("frameset".toList == "frameset".toList) = true := by decide
+      rw [h1', h0, h2', hall]; rfl
+
+/-- **T3b** in the terms of `docClauses`: every child of `html` is an element, a comment, or text of
+whitespace characters (`isWsChar` = `isAsciiWhitespace`, the class the model uses) -/
+theorem C06_html_text_whitespace {opts : Opts} {toks : List (TokToken × Nat)} {line : Nat} {s : State} {r : Id}
+    (h : parseTokens opts (toks ++ [(TokToken.eof, line)]) = .ok s) (hr : htmlOf s.dom = some r) :
+    ∀ c ∈ s.dom.childrenOf r, ∀ t, s.dom.dataOf c = some (.text t) → t.all isWsChar = true := by
+  obtain ⟨r', h1, _, h3⟩ := C06_html_children h
+  rw [hr] at h1; cases h1
+  intro c hc t ht
+  have := h3 c hc t ht
+  have heq : isWsChar = isAsciiWhitespace := by funext ch; rfl
+  rw [heq]; exact this
+
+/-- the prefix-closed form: in **every** reachable state from BeforeHead on, the element children of
+`html` form a prefix of the final pattern (nothing; `head`; `head body`; `head frameset` followed by
+`noframes` / formatting elements), and every child of `html` is an element, a comment or whitespace text -/
+theorem C06_html_children_every_state {opts : Opts} {toks : List (TokToken × Nat)} {s : State}
+    (h : Reachable opts toks s) (hl : Late s) :
+    ∃ r, htmlOf s.dom = some r ∧
+      (elemKidNames s.dom r = [] ∨ elemKidNames s.dom r = ["head".toList] ∨ HtmlKids (elemKidNames s.dom r)) ∧
+      ∀ c ∈ s.dom.childrenOf r, ∀ t, s.dom.dataOf c = some (.text t) → t.all isAsciiWhitespace = true := by
+  obtain ⟨r, up, ph, hs⟩ := C06_shape_every_state h hl
+  have hc := hs.core
+  have hws : ∀ c ∈ s.dom.childrenOf r, ∀ t, s.dom.dataOf c = some (.text t) → t.all isAsciiWhitespace = true := by
+    intro c hcm t ht
+    rcases hc.kids c hcm with h1 | ⟨t', h1⟩ | ⟨t', h1, h2⟩
+    · unfold Dom.isElement at h1; rw [ht] at h1; cases h1
+    · rw [ht] at h1; cases h1
+    · rw [ht] at h1; cases h1; exact h2
+  refine ⟨r, htmlOf_root hc, ?_, hws⟩
+  have hel : ∀ x ∈ rootElems s.dom r, s.dom.isElement x = true := fun x hx => (List.mem_filter.mp hx).2
+  cases ph with
+  | p0 =>
+    left
+    rw [elemKidNames_eq, hc.elems.2]; rfl
+  | p1 =>
+    right; left
+    obtain ⟨hh, _, e2, e3⟩ := hc.elems
+    have hhe := hel hh (by rw [e2]; simp)
+    rw [elemKidNames_eq, e2]
+    simp [List.filterMap_cons, htmlElemName_of_nm hhe e3]
+  | pb b =>
+    right; right
+    obtain ⟨r', hr', hk, _⟩ := htmlKids_of_fin ⟨r, up, .pb b, hs, trivial⟩
+    rw [htmlOf_root hc] at hr'
+    cases hr'
+    exact hk
+  | pf fs =>
+    right; right
+    obtain ⟨r', hr', hk, _⟩ := htmlKids_of_fin ⟨r, up, .pf fs, hs, trivial⟩
+    rw [htmlOf_root hc] at hr'
+    cases hr'
+    exact hk
+
+
+/-! ## the list of active formatting elements and the known finding -/
+
+theorem endLoop_af : ∀ (l : List Id) (s s' : State) (u : Unit), H5V.Model.HtmlTB.endLoop l s = .ok (u, s') →
+    s'.activeFormatting = s.activeFormatting
+  | [], s, s', u, e => by
+    unfold H5V.Model.HtmlTB.endLoop at e
+    obtain ⟨_, rfl⟩ := pure_ok.mp e
+    rfl
+  | x :: rest, s, s', u, e => by
+    unfold H5V.Model.HtmlTB.endLoop at e
+    obtain ⟨u1, s1, e1, e2⟩ := bind_ok.mp e
+    rw [endLoop_af rest s1 s' u e2]
+    exact (qs_sinkUnit e1).af
+
+theorem finishTB_af {s s' : State} {u : Unit} (e : finishTB s = .ok (u, s')) :
+    s'.activeFormatting = s.activeFormatting := by
+  unfold finishTB at e
+  rw [getS_bind] at e
+  obtain ⟨u1, s1, e1, e2⟩ := bind_ok.mp e
+  rw [endLoop_af _ _ _ _ e2, modS_ok.mp e1]
+
+/-- the state before `end()`: the invariant, the same nodes, the same list of active formatting elements -/
+theorem parseTokens_fin_af {opts : Opts} {toks : List (TokToken × Nat)} {line : Nat} {s : State}
+    (h : parseTokens opts (toks ++ [(TokToken.eof, line)]) = .ok s) :
+    ∃ s0, Fin s0 ∧ s.dom.nodes = s0.dom.nodes ∧ s.activeFormatting = s0.activeFormatting := by
+  unfold parseTokens at h
+  cases hr : ((do newTB; let _ ← processTokens (toks ++ [(TokToken.eof, line)]) []; finishTB : M Unit).run
+      (State.init opts)) with
+  | error e => rw [hr] at h; cases h
+  | ok p =>
+    obtain ⟨u, sf⟩ := p
+    rw [hr] at h
+    have hs : sf = s := by simpa [Except.map] using h
+    subst hs
+    have hr' : (newTB >>= fun _ => processTokens (toks ++ [(TokToken.eof, line)]) [] >>= fun _ => finishTB)
+        (State.init opts) = .ok (u, sf) := hr
+    obtain ⟨u1, s1, e1, e2⟩ := bind_ok.mp hr'
+    obtain ⟨r2, s2, e3, e4⟩ := bind_ok.mp e2
+    have h1 := newTB_inv (earlyA_init opts) e1
+    obtain ⟨_, _, c⟩ := processTokens_good rules _ [] s1 r2 s2 (.a h1) (I2.ofEarly h1.notLate (e2_newTB e1)) e3
+    exact ⟨s2, c toks line rfl, finishTB_nodes e4, finishTB_af e4⟩
+
+/-- **every formatting element among the element children of `html` is accounted for by the list of
+active formatting elements**: it has an entry with its tag name there, at the end of the parse.  (Such
+children arise only by "reconstruct the active formatting elements" in the after-after-frameset mode;
+the entry is the one that was in the list when `<frameset>` replaced `body`, or a recreation of it.) -/
+theorem C06_html_children_fmt_in_af {opts : Opts} {toks : List (TokToken × Nat)} {line : Nat} {s : State} {r : Id}
+    (h : parseTokens opts (toks ++ [(TokToken.eof, line)]) = .ok s) (hr : htmlOf s.dom = some r) :
+    ∀ n ∈ elemKidNames s.dom r, isOneOf n fmtNames = true →
+      ∃ y t, FormatEntry.element y t ∈ s.activeFormatting ∧ t.name = n := by
+  obtain ⟨s0, hf, hn, haf⟩ := parseTokens_fin_af h
+  obtain ⟨r0, up, ph, hs, _⟩ := hf
+  have hc := hs.core
+  have hr0 : htmlOf s0.dom = some r0 := htmlOf_root hc
+  have e1 : htmlOf s.dom = htmlOf s0.dom := by unfold htmlOf docKid Dom.childrenOf Dom.dataOf; rw [hn]
+  rw [e1, hr0] at hr; cases hr
+  have e2 : elemKidNames s.dom r = elemKidNames s0.dom r := by
+    unfold elemKidNames htmlElemName Dom.childrenOf Dom.dataOf; rw [hn]
+  intro n hnm hfm
+  rw [e2, elemKidNames_eq] at hnm
+  obtain ⟨x, hx, hxn⟩ := List.mem_filterMap.mp hnm
+  have hxe : s0.dom.isElement x = true := (List.mem_filter.mp hx).2
+  -- the name of x
+  have hname : nm s0.dom x = ⟨nsHtml, n⟩ := by
+    unfold htmlElemName at hxn
+    unfold Dom.isElement at hxe
+    unfold nm
+    cases hd : s0.dom.dataOf x with
+    | none => rw [hd] at hxe; cases hxe
+    | some v =>
+      rw [hd] at hxn hxe
+      cases v with
+      | element q a tc ip =>
+        simp only at hxn ⊢
+        by_cases hq : (q.ns == nsHtml) = true
+        · rw [if_pos hq] at hxn
+          cases hxn
+          have : q.ns = nsHtml := by simpa using hq
+          rw [this]
+        · rw [if_neg hq] at hxn
+          cases hxn
+          exact absurd hfm (by decide)
+      | _ => cases hxe
+  have hfx : isFmtE (nm s0.dom x) = true := by rw [hname]; exact isFmtE_of_fmt hfm
+  obtain ⟨y, t, hy, ht⟩ := hc.afx x hx hfx
+  exact ⟨y, t, by rw [haf]; exact hy, by rw [ht, hname]⟩
+
+/-- **T2b, `_partial`**: the full clause `head (body | frameset noframes*)` of `Skeleton` for the children
+of `html`, under the hypothesis that the list of active formatting elements holds no element entry at the
+end of the parse (decidable on the final state; in particular when no formatting start tag —
+`a b big code em font i nobr s small strike strong tt u` — occurs unclosed before `<frameset>`).
+What is missing for the unconditional clause is exactly the known finding
+`C06_witness_frameset_reconstruct`: `<frameset>` replacing `body` while the list is not empty
+(`framesetGapState`), followed by whitespace after `</html>`. -/
+theorem C06_html_children_partial {opts : Opts} {toks : List (TokToken × Nat)} {line : Nat} {s : State}
+    (h : parseTokens opts (toks ++ [(TokToken.eof, line)]) = .ok s)
+    (haf : ∀ y t, FormatEntry.element y t ∉ s.activeFormatting) :
+    ∃ r, htmlOf s.dom = some r ∧ htmlKidsOk (elemKidNames s.dom r) = true := by
+  obtain ⟨r, hr, _, _⟩ := C06_html_children h
+  refine ⟨r, hr, (C06_htmlKidsOk_iff h hr).mpr (fun n hn => ?_)⟩
+  cases hq : isOneOf n fmtNames with
+  | false => rfl
+  | true =>
+    obtain ⟨y, t, hy, _⟩ := C06_html_children_fmt_in_af h hr n hn hq
+    exact absurd hy (haf y t)
+
+/-! ## non-vacuity -/
+
+/-- the hypothesis is satisfiable (the runs return normally), for table, template, foreign-content,
+frameset input -/
+example : okRun (parseTokens {} ([sTag "table", sTag "tr", sTag "td", txt "x", eTag "table", sTag "template", sTag "td",
+    eTag "template", sTag "svg", sTag "p"] ++ [(.eof, 1)])) = true := by decide +kernel
+example : okRun (parseTokens { scriptingEnabled := true } ([sTag "head", sTag "noscript", eTag "head", sTag "frameset",
+    sTag "noframes", txt "y", eTag "noframes", eTag "frameset", sTag "noframes"] ++ [(.eof, 1)])) = true := by
+  decide +kernel
+
+/-- the classification is not trivially true: other lists of names are rejected -/
+example : ¬ HtmlKids ["head".toList, "div".toList] := by
+  rintro (h | ⟨ex, h, _⟩)
+  · revert h; decide
+  · exact absurd (List.cons.inj (List.cons.inj h).2).1 (by decide)
+example : ¬ HtmlKids ["head".toList, "frameset".toList, "div".toList] := by
+  rintro (h | ⟨ex, h, hex⟩)
+  · revert h; decide
+  · have hex' := hex "div".toList (by
+      have := (List.cons.inj (List.cons.inj h).2).2
+      rw [← this]; simp)
+    rcases hex' with h1 | h1 <;> (revert h1; decide)
+example : ¬ HtmlKids ["body".toList] := by
+  rintro (h | ⟨ex, h, _⟩)
+  · revert h; decide
+  · exact absurd (List.cons.inj h).1 (by decide)
+example : HtmlKids ["head".toList, "frameset".toList, "noframes".toList, "b".toList] :=
+  Or.inr ⟨_, rfl, by
+    intro n hn
+    simp only [List.mem_cons, List.not_mem_nil, or_false] at hn
+    rcases hn with rfl | rfl
+    · exact Or.inl rfl
+    · exact Or.inr (by decide)⟩
+
+/-- the theorem applied to the run of the known finding (`<b><frameset></frameset></html>␠`): the
+children of `html` are classified (`head frameset b`, the `b` a reconstructed formatting element),
+although the clause `htmlKidsOk` of `Skeleton` fails -/
+example : ∃ r, htmlOf (domOf (parseTokens {} witnessTokens)) = some r ∧
+    HtmlKids (elemKidNames (domOf (parseTokens {} witnessTokens)) r) := by
+  cases h : parseTokens {} witnessTokens with
+  | error e =>
+    have : okRun (parseTokens {} witnessTokens) = true := C06_witness_frameset_reconstruct.1
+    rw [h] at this; cases this
+  | ok s =>
+    have h' : parseTokens {} ([sTag "b", sTag "frameset", eTag "frameset", eTag "html", txt " "] ++ [(TokToken.eof, 1)])
+        = .ok s := h
+    obtain ⟨r, h1, h2, _⟩ := C06_html_children h'
+    exact ⟨r, h1, h2⟩
+
+/-- concrete instances checked by evaluation, agreeing with the theorems -/
+example : (match parseTokens {} witnessTokens with
+    | .ok s => (match htmlOf s.dom with
+      | some r => elemKidNames s.dom r == ["head".toList, "frameset".toList, "b".toList]
+      | none => false)
+    | .error _ => false) = true := by decide +kernel
+example : (match parseTokens {} [sTag "table", sTag "tr", sTag "td", txt "x", eTag "table", txt " ", (.eof, 1)] with
+    | .ok s => (match htmlOf s.dom with
+      | some r => elemKidNames s.dom r == ["head".toList, "body".toList]
+      | none => false)
+    | .error _ => false) = true := by decide +kernel
+example : (match parseTokens {} [sTag "frameset", eTag "frameset", sTag "noframes", eTag "noframes", txt "\n", (.eof, 1)] with
+    | .ok s => (match htmlOf s.dom with
+      | some r => elemKidNames s.dom r == ["head".toList, "frameset".toList, "noframes".toList] &&
+          htmlKidsOk (elemKidNames s.dom r)
+      | none => false)
+    | .error _ => false) = true := by decide +kernel
+
+
+/-- the hypothesis of `C06_html_children_partial` is satisfiable (a frameset document without formatting
+elements), and it fails for the run of the known finding, whose list still holds the `b` entry -/
+example : (match parseTokens {} [sTag "frameset", eTag "frameset", sTag "noframes", eTag "noframes", txt "\n", (.eof, 1)] with
+    | .ok s => s.activeFormatting.all (fun e => match e with | .marker => true | .element _ _ => false)
+    | .error _ => false) = true := by decide +kernel
+example : (match parseTokens {} witnessTokens with
+    | .ok s => s.activeFormatting.any (fun e => match e with | .element _ t => t.name == "b".toList | .marker => false)
+    | .error _ => false) = true := by decide +kernel
 
 end H5V.Props.C06
